@@ -165,6 +165,11 @@ ApplyDiag ==
        asbuilt |-> [n \in DOMAIN full.bufs |-> PerRow(OpsOfBlock(full.bufs[n], Ev.b))],
        logged |-> [n \in DOMAIN Ev.ops |-> PerRow(Ev.ops[n])],
        fired_strict |-> strict.fired, fired_asbuilt |-> full.fired, fired_logged |-> Ev.fired, live |-> S.live ]
+ReadBackDiag ==
+  UNION {UNION {{<<c, n, o, st[c].gt[n][o], ValueAt(st[c], n, o)>> : o \in {o \in st[c].live :
+                     LET g == st[c].gt[n][o]  v == ValueAt(st[c], n, o) IN ~(g[1] = v[1] /\ (g[1] => g[2] = v[2]))}}
+                : n \in DOMAIN st[c].reg} : c \in Colls}
+InvDiag == ReadBack \/ PrintT(<<"READBACK", ReadBackDiag, dev>>)
 Diag == IF Ev.e = "dump" THEN DumpDiag ELSE IF Ev.e = "apply" THEN ApplyDiag ELSE <<"event", Ev, "txn", txn>>
 
 TNext == \/ TReset \/ TCreateCol \/ TCreateIdx \/ TDropIdx \/ TCreateSort \/ TCreateTrig \/ TDropTrig \/ TTransport
